@@ -150,6 +150,8 @@ class XorEncodedFile(io.RawIOBase):
             nonce = self.fh.read(4)
         except OSError:
             nonce = b"\x00\x00\x00\x00"
+        # a short read (position at or past EOF) must not move the file position
+        self.fh.seek(pos)
         if pos < self.nonce_offset + 12:
             # Exclude "encoded filesize" as nonce:
             # | nonce | encoded filesize | encoded MZ | encoded .. |
